@@ -46,7 +46,10 @@ def explore(cdef, interp, max_paths=400):
     while c.worklist:
         prefix = c.worklist.pop()
         c.reset_run(prefix)
+        interp.call_contracts.clear()
+        interp.loop_specs.clear()
         vc.getvals = []
+        vc.end_checks = []
         vc.may_raise = False
         info["paths"] += 1
         if info["paths"] > max_paths:
@@ -55,6 +58,7 @@ def explore(cdef, interp, max_paths=400):
         n_before = len(c.obligations)
         try:
             cdef.fn(vc)
+            vc.path_end_checks()
         except PathAbort:
             info["aborted"] += 1
         except Unsupported as e:
@@ -149,6 +153,9 @@ def run(prop, tier="quick", seed=0, replay=None, only=None):
     infos = {}
     undecided = []
     for cd in contracts:
+        if not cd.symbolic:
+            infos[cd.name] = {"paths": 0, "undecided": [], "aborted": 0, "covers": []}
+            continue
         try:
             obs, info = explore(cd, interp)
         except Exception as e:
@@ -248,10 +255,14 @@ def run(prop, tier="quick", seed=0, replay=None, only=None):
             cdname = ob.meta["contract"]
             cd = [c for c in contracts if c.name == cdname][0]
             found = None
-            if ob.values and cd.native:
-                r = native_runs(cd, None, 0, 1, inputs=ob.values)
+            rcd = cd
+            if cd.replay_with:
+                rcd = [c for c in contracts if c.name == cd.replay_with][0]
+            if ob.values and rcd.native:
+                r = native_runs(rcd, None, 0, 1, inputs=ob.values)
                 for f in r["failures"]:
                     found = f
+                    cdname = rcd.name
                     break
             if found:
                 path = write_replay(prop, found["obligation"], cdname, found["inputs"], found["why"], ob)
